@@ -82,7 +82,7 @@ def run(tier, seed):
                                   {"scenario": sc.to_json(), "call": i + 1})
     ctx.count_clause("trace.fault.atomic", nf)
     ctx.add_stage("fault points injected into the real explainers", "fault_enumeration", fault_points=nf, runs=len(scs))
-    ex = next((t for t in traces if any(c["fault"] for c in t["calls"])), traces[0])
+    ex = next((t for t in traces if any(c["fault"] for c in t["calls"])), traces[0] if traces else {"key": "", "calls": []})
     ctx.sample({"direction": "B", "scenario": ex["key"],
                 "faulted_call": next(({k: c[k] for k in ("fault", "outcome", "order", "pre", "post")} for c in ex["calls"] if c["fault"]), None)})
     bscs = batch_fault_scenarios(rng, 10 if quick else 80, quick)
